@@ -172,17 +172,40 @@ def run(ctx):
                 vfuncs.append(cd)
     ctx.require(any(f.name == VALIDATOR for _, f in vfuncs),
                 f'anchor vanished: {Q} no longer calls {VALIDATOR}')
+    # an option counts as validated when some `raise` of a validator is directly conditioned on it: the test of
+    # the innermost `if` / `elif` enclosing the raise mentions conf_kwargs['<option>'] (or a local assigned from
+    # it, or conf_kwargs[<loop variable>] of a loop over a folded tuple of option names).  Merely *reading* an
+    # option (e.g. to default another one) is not validation.
     for vm, vf in vfuncs:
         p0 = vf.args.args[0].arg
-        for k, _ in str_subscripts(vf, p0):
-            validated.add(k)
+        alias = {}
+        for a in ast.walk(vf):
+            if isinstance(a, ast.Assign) and isinstance(a.targets[0], ast.Name) and isinstance(a.value, ast.Subscript) \
+                    and dotted(a.value.value) == p0 and isinstance(a.value.slice, ast.Constant):
+                alias[a.targets[0].id] = a.value.slice.value
+        loops = {}
         for loop in [n for n in ast.walk(vf) if isinstance(n, ast.For)]:
             it = ctx.folder.eval_in(vm, loop.iter)
             if isinstance(it, tuple) and all(isinstance(x, str) for x in it) and isinstance(loop.target, ast.Name):
-                uses = [n for n in ast.walk(loop) if isinstance(n, ast.Subscript) and dotted(n.value) == p0
-                        and dotted(n.slice) == loop.target.id]
-                if uses:
-                    validated.update(it)
+                loops[loop.target.id] = it
+        for r in [n for n in ast.walk(vf) if isinstance(n, ast.Raise)]:
+            child, p_ = r, getattr(r, '_parent', None)
+            test = None
+            while p_ is not None and p_ is not vf:
+                if isinstance(p_, ast.If) and any(child is x for x in p_.body):
+                    test = p_.test
+                    break
+                child, p_ = p_, getattr(p_, '_parent', None)
+            if test is None:
+                continue
+            for n_ in ast.walk(test):
+                if isinstance(n_, ast.Subscript) and dotted(n_.value) == p0:
+                    if isinstance(n_.slice, ast.Constant) and isinstance(n_.slice.value, str):
+                        validated.add(n_.slice.value)
+                    elif isinstance(n_.slice, ast.Name) and n_.slice.id in loops:
+                        validated.update(loops[n_.slice.id])
+                elif isinstance(n_, ast.Name) and n_.id in alias:
+                    validated.add(alias[n_.id])
     for o in options:
         ctx.ob('C17.R1', f'validation:{o}', tm.where(tm.defs.get(VALIDATOR)),
                f'option {o} is examined by {VALIDATOR} / default_conf_kwargs', o in validated,
@@ -320,6 +343,7 @@ def run(ctx):
     ctx.ob('C17.R5', f'{Q}:one-critical-section', W(new), 'lookup and store share one critical section',
            len(withs) == 1 and None not in withs, f'{len(withs)} distinct regions')
     ctx.floor('C17.R5', len(acc), 3, f'accesses of {MEMO}')
+    _publication_and_key_hash(ctx, MEMO, Q)
 
 
 def enclosing_expr(n):
@@ -327,3 +351,77 @@ def enclosing_expr(n):
     while p is not None and not isinstance(p, (ast.stmt,)) and not isinstance(parent(p), ast.stmt):
         p = parent(p)
     return p if p is not None and not isinstance(p, ast.stmt) else (parent(n) or n)
+
+
+def _publication_and_key_hash(ctx, MEMO, Q):
+    """R6: nothing that can still fail runs after the configuration was published in the memo table.
+    R7: the hash of the frozen dictionary that is part of the key is order-insensitive like its equality."""
+    repo = ctx.repo
+    m = repo.mod(CONFMAIN)
+    new = repo.find_def(CONFMAIN, 'BeartypeConf.__new__')
+    ctx.rule('C17.R6', 'publication is the last fallible step: after the statement storing the new configuration into the '
+             'memo table, __new__ calls no function of beartype._conf that can raise (transitively, through the '
+             'resolved call graph) — otherwise a half-initialised configuration stays memoised when that call fails '
+             'and every later request for equal options returns it')
+    from sa.callgraph import CallGraph
+    cg = CallGraph(repo, prefixes=('beartype._conf',))
+    stores = [a for a in ast.walk(new) if isinstance(a, ast.Assign) and any(
+        isinstance(t, ast.Subscript) and dotted(t.value) == MEMO for t in a.targets)]
+    ctx.require(len(stores) == 1, f'{Q}: expected one store into {MEMO}')
+    st = stores[0]
+    blk = parent(st).body
+    after = blk[blk.index(st) + 1:]
+
+    def can_raise(q, seen=()):
+        if q in seen or q not in cg.funcs:
+            return None
+        mod, fn = cg.funcs[q]
+        for r in walk_shallow(fn):
+            if isinstance(r, ast.Raise):
+                return q
+        for _, callee in cg.calls.get(q, []):
+            hit = can_raise(callee, seen + (q,)) if callee else None
+            if hit:
+                return hit
+        return None
+    bad = []
+    for s_ in after:
+        for c in ast.walk(s_):
+            if isinstance(c, ast.Call):
+                r = repo.resolve_expr(m, c.func)
+                if r.kind in ('def', 'func') and (r.module or '').startswith('beartype._conf'):
+                    hit = can_raise(f'{r.module}.{r.name}')
+                    if hit:
+                        bad.append((c, hit))
+    ctx.ob('C17.R6', f'{Q}:no-fallible-step-after-publication', m.where(bad[0][0]) if bad else m.where(st),
+           'no call that can raise follows the memo store', not bad,
+           f'`{norm(bad[0][0])[:60]}` (raises in {bad[0][1].split(".")[-1]}) runs after `{norm(st)[:60]}`' if bad else '')
+
+    ctx.rule('C17.R7', 'FrozenDict — the type of the hint_overrides component of the key — inherits the '
+             'order-insensitive equality of dict, so its hash must be computed from an order-insensitive aggregate of '
+             'its items (frozenset(self.items())); a tuple / list of the items makes equal dictionaries written in '
+             'different orders hash differently (two configurations that compare equal but are distinct memo entries)')
+    fm = repo.mod('beartype._util.kind.maplike.utilmapfrozen')
+    fcls = repo.find_def(fm.name, 'FrozenDict')
+    # the hash is precomputed wherever self._hash is assigned from a hash(...) call (today: __init__)
+    hashes = [a.value for f in ast.walk(fcls) if isinstance(f, ast.FunctionDef) for a in ast.walk(f)
+              if isinstance(a, ast.Assign) and norm(a.targets[0]) == 'self._hash' and isinstance(a.value, ast.Call)
+              and dotted(a.value.func) == 'hash' and a.value.args]
+    hf = next((f for f in ast.walk(fcls) if isinstance(f, ast.FunctionDef) and any(h in list(ast.walk(f)) for h in hashes)), fcls)
+    ctx.require(hashes, 'FrozenDict: no `self._hash = hash(…)` found')
+    srcs = []
+    for c in hashes:
+        a = c.args[0]
+        if isinstance(a, ast.Name):
+            d = [x for x in ast.walk(hf) if isinstance(x, ast.Assign) and dotted(x.targets[0]) == a.id]
+            a = d[-1].value if d else a
+        srcs.append(norm(a))
+    ok = all(s_.startswith('frozenset(') and 'items()' in s_ for s_ in srcs)
+    order = [s_ for s_ in srcs if s_.startswith(('tuple(', 'list(')) or s_.startswith('(')]
+    if not ok and not order:
+        ctx.require(False, f'FrozenDict.__hash__: unrecognised hash source {srcs}')
+    ctx.ob('C17.R7', 'FrozenDict.__hash__:order-insensitive', fm.where(hashes[0]),
+           'the hash is computed from frozenset(self.items())', ok, f'hash source: {srcs}')
+    eqs = [f for f in ast.walk(fcls) if isinstance(f, ast.FunctionDef) and f.name == '__eq__']
+    ctx.ob('C17.R7', 'FrozenDict.__eq__:inherited', fm.where(eqs[0]) if eqs else fm.where(hf),
+           'equality is the inherited dict equality (what the hash rule above is stated against)', not eqs, 'FrozenDict overrides __eq__')
